@@ -69,14 +69,14 @@ def main():
                         if "replay=" in l:
                             rp = l.split("replay=")[1].split()[0]
                             if os.path.exists(rp):
-                                dst = os.path.join(VERIF, "seeded", "%s-%s" % (pid, n))
+                                dst = os.path.join(VERIF, "seeded", "%s-%s%s" % (pid, os.environ.get("SUFFIX", ""), n))
                                 os.makedirs(dst, exist_ok=True)
                                 shutil.copy(rp, os.path.join(dst, "replay-" + os.path.basename(rp)))
             finally:
                 sh("git -C /repo checkout -- .")
             detected = [r["check"] for r in res["ran"] if r["exit"] == 1 and r["violation_lines"]]
             res["detected_by"] = detected
-            dst = os.path.join(VERIF, "seeded", "%s-%s" % (pid, n))
+            dst = os.path.join(VERIF, "seeded", "%s-%s%s" % (pid, os.environ.get("SUFFIX", ""), n))
             os.makedirs(dst, exist_ok=True)
             shutil.copy(patch, os.path.join(dst, "patch.diff"))
             shutil.copy(demo, os.path.join(dst, "demo.py"))
